@@ -15,6 +15,14 @@ def is_chain(e):
     return isinstance(cur, ast.Name)
 
 
+def _blocks(node):
+    for n in ast.walk(node):
+        for f in ('body', 'orelse', 'finalbody'):
+            b = getattr(n, f, None)
+            if isinstance(b, list) and b and isinstance(b[0], ast.stmt):
+                yield b
+
+
 class ReadOnly(object):
     """Does a function (or anything it calls) store through one of its parameters?"""
 
@@ -56,6 +64,98 @@ class ReadOnly(object):
                             changed = True
         return al
 
+    def boxes(self, fi, al):
+        """(boxes, element aliases): local containers / freshly constructed objects that *hold* objects reachable from the
+        parameter - a list the caller's inputs were appended to, a transaction built around such a list - and the names
+        bound to their elements.  Editing the box is fine; storing through one of its elements edits the caller's object."""
+        boxes, elems = set(), set()
+
+        def held(e):
+            """expression evaluates to (or contains) an alias"""
+            if isinstance(e, ast.Starred):
+                e = e.value
+            if is_chain(e):
+                r_ = root_name(e)
+                return r_ in al or r_ in elems or r_ in boxes
+            if isinstance(e, (ast.List, ast.Tuple, ast.Set)):
+                return any(held(x) for x in e.elts)
+            if isinstance(e, (ast.ListComp, ast.GeneratorExp, ast.SetComp)):
+                loc = set()
+                for g in e.generators:
+                    if held(g.iter) or (isinstance(g.iter, ast.Call) and norm(g.iter.func) in ('enumerate', 'reversed', 'zip', 'iter') and any(held(a) for a in g.iter.args)):
+                        for x in ast.walk(g.target):
+                            if isinstance(x, ast.Name):
+                                loc.add(x.id)
+                return is_chain(e.elt) and (root_name(e.elt) in loc or held(e.elt))
+            if isinstance(e, ast.IfExp):
+                return held(e.body) or held(e.orelse)
+            if isinstance(e, ast.Call):
+                t = norm(e.func)
+                if t in ('list', 'tuple', 'sorted', 'reversed', 'set', 'frozenset') and e.args:
+                    return held(e.args[0])
+                v = self.repo.fold(e.func, fi.module, cls=fi.cls)
+                if isinstance(v, ClassRef):
+                    # a constructor keeps what it is given (mutable classes store their arguments as they are)
+                    return any(held(a) for a in list(e.args) + [k.value for k in e.keywords])
+            return False
+        changed = True
+        while changed:
+            changed = False
+            for n in walk_no_nested(fi.node):
+                if isinstance(n, ast.Call) and isinstance(n.func, ast.Attribute) and n.func.attr in ('append', 'extend', 'insert', 'add') \
+                        and isinstance(n.func.value, ast.Name) and n.func.value.id not in al and n.args and held(n.args[-1]) \
+                        and not self._rebound_fresh(fi, n, n.args[-1], held):
+                    if n.func.value.id not in boxes:
+                        boxes.add(n.func.value.id)
+                        changed = True
+                tgt = val = None
+                loop = False
+                if isinstance(n, ast.Assign) and len(n.targets) == 1:
+                    tgt, val = n.targets[0], n.value
+                elif isinstance(n, ast.For):
+                    tgt, val, loop = n.target, n.iter, True
+                if tgt is None:
+                    continue
+                if loop and isinstance(val, ast.Call) and norm(val.func) in ('enumerate', 'reversed', 'iter', 'zip') and val.args:
+                    val = val.args[0]
+                names = [x.id for x in ([tgt] if isinstance(tgt, ast.Name) else (tgt.elts if isinstance(tgt, (ast.Tuple, ast.List)) else [])) if isinstance(x, ast.Name)]
+                if is_chain(val) and root_name(val) in boxes and not isinstance(val, ast.Name):
+                    # an element / field of a box
+                    through = any(isinstance(x, ast.Subscript) for x in ast.walk(val))
+                    if loop or through:
+                        for nm in names:
+                            if nm not in elems and nm not in al:
+                                elems.add(nm)
+                                changed = True
+                    continue
+                if loop and isinstance(val, ast.Name) and val.id in boxes:
+                    for nm in names:
+                        if nm not in elems and nm not in al:
+                            elems.add(nm)
+                            changed = True
+                    continue
+                if not loop and not is_chain(val) and held(val) and isinstance(tgt, ast.Name):
+                    if tgt.id not in boxes and tgt.id not in al:
+                        boxes.add(tgt.id)
+                        changed = True
+        return boxes, elems
+
+    def _rebound_fresh(self, fi, call, arg, held):
+        """the name handed to append() was unconditionally rebound, earlier in the same block, to something that holds no
+        alias (`t = Copy.from_x(t); out.append(t)`): the one flow-sensitive step this analysis takes"""
+        if not isinstance(arg, ast.Name):
+            return False
+        for blk in _blocks(fi.node):
+            for k, st in enumerate(blk):
+                if isinstance(st, ast.Expr) and st.value is call:
+                    for prev in reversed(blk[:k]):
+                        if isinstance(prev, ast.Assign) and len(prev.targets) == 1 and isinstance(prev.targets[0], ast.Name) and prev.targets[0].id == arg.id:
+                            return not held(prev.value) and not (is_chain(prev.value))
+                        if any(isinstance(x, ast.Name) and x.id == arg.id and isinstance(x.ctx, ast.Store) for x in ast.walk(prev)):
+                            return False
+                    return False
+        return False
+
     def writes(self, fi, param, ctx=None, depth=0, path=(), class_args=None):
         """-> list of (FunctionInfo, node, text, call path)"""
         class_args = class_args or {}
@@ -66,6 +166,14 @@ class ReadOnly(object):
         out = []
         self.visited.append(fi.qualname)
         al = self.aliases(fi, param)
+        boxes, elems = self.boxes(fi, al)
+        al = al | elems
+
+        def through_box(sub):
+            """a store target rooted in a box that reaches an element before the final accessor"""
+            if not (isinstance(sub, (ast.Attribute, ast.Subscript)) and root_name(sub) in boxes):
+                return False
+            return any(isinstance(x, ast.Subscript) for x in ast.walk(sub.value))
         for n in walk_no_nested(fi.node):
             # direct stores / deletes
             targets = []
@@ -79,6 +187,8 @@ class ReadOnly(object):
                 for sub in ([t] if not isinstance(t, (ast.Tuple, ast.List)) else t.elts):
                     if isinstance(sub, (ast.Attribute, ast.Subscript)) and root_name(sub) in al:
                         out.append((fi, n, 'store through `%s`' % norm(sub), path))
+                    elif through_box(sub):
+                        out.append((fi, n, 'store through `%s`, an element of `%s`, which holds objects of the caller\'s `%s` (not copies)' % (norm(sub), root_name(sub), param), path))
             if isinstance(n, ast.Call):
                 f = n.func
                 if isinstance(f, ast.Attribute) and f.attr in MUTATORS and is_chain(f.value) and root_name(f.value) in al:
